@@ -1,8 +1,15 @@
-import Flatland.JsonUtil
-open Lean Flatland.J
+import Flatland.Run.FlatCommon
+open Lean
+open Flatland.J hiding Str
 namespace Flatland.Run.C07
+open Flatland.Flat Flatland.Run.FlatCommon
 
-/-- JSON case in, JSON observation out (stub until the model of C07 is written). -/
-def run (_j : Json) : Except String Json := .error "model runner for C07 not implemented yet"
+/-- case: schema, sep, elem (state extracted from the real element), env -/
+def run (j : Json) : Except String Json := do
+  let s ← parseSchema (← fld j "schema")
+  let sep ← cfld j "sep"
+  let env ← parseEnv (← fld j "env")
+  let e ← parseElem (← fld j "elem")
+  return obj [("flatten", pairsJson (flatten env sep s e))]
 
 end Flatland.Run.C07
